@@ -771,8 +771,14 @@ func c19RandomHistory(p *PRNG, k int) c19History {
 	add(c19Op{Op: "filetree.SetFiles", A: 2, N: p.I64n(100)})
 	add(c19Op{Op: "notifications.Create", A: 1, B: 2, N: p.I64n(100)})
 	add(c19Op{Op: "notifications.Block", A: 2, B: 3})
-	add(c19Op{Op: "oracle.CreateFeed", A: 1, S: "jklprice"})
-	add(c19Op{Op: "oracle.UpdateFeed", A: 1, S: "jklprice", N: p.I64n(1000)})
+	if k%5 != 2 { // (every fifth history: the oracle has its deposit parameter set and no feed yet)
+		add(c19Op{Op: "oracle.CreateFeed", A: 1, S: "jklprice"})
+		add(c19Op{Op: "oracle.UpdateFeed", A: 1, S: "jklprice", N: p.I64n(1000)})
+	}
+	// the same content posted again by the same owner some blocks later: two files that differ in their start only
+	add(c19Op{Op: "storage.PostFile", A: 4, N: 77})
+	add(c19Op{Op: "height", N: 3})
+	add(c19Op{Op: "storage.PostFile", A: 4, N: 77})
 	add(c19Op{Op: "jklmint.BlockMint"})
 	add(c19Op{Op: "height", N: 1})
 	add(c19Op{Op: "jklmint.BlockMint"})
@@ -830,6 +836,9 @@ func c19RandomHistory(p *PRNG, k int) c19History {
 		case 22:
 			add(c19Op{Op: "notifications.Block", A: acct(), B: acct()})
 		case 23:
+			if k%5 == 2 {
+				continue
+			}
 			add(c19Op{Op: "oracle.CreateFeed", A: acct(), S: PickOne(p, []string{"jklprice", "btc", "feed-" + fmt.Sprint(p.Intn(5))})})
 		case 24:
 			add(c19Op{Op: "oracle.UpdateFeed", A: acct(), S: PickOne(p, []string{"jklprice", "btc"}), N: p.I64n(1000)})
